@@ -267,6 +267,7 @@ static cfg_opt_t *cfg_getopt_secidx(cfg_t *cfg, const char *name,
 {
 	cfg_opt_t *opt = NULL;
 	cfg_t *sec = cfg;
+	const char *path = name;
 
 	if (!cfg || !cfg->name || !name || !*name) {
 		errno = EINVAL;
@@ -285,7 +286,7 @@ static cfg_opt_t *cfg_getopt_secidx(cfg_t *cfg, const char *name,
 			break;
 
 		if (!len)
-			return NULL;	/* empty step: the path starts with, or repeats, '=' */
+			goto malformed;	/* empty step: the path starts with, or repeats, '=' */
 
 		secname = strndup(name, len);
 		if (!secname)
@@ -341,15 +342,15 @@ static cfg_opt_t *cfg_getopt_secidx(cfg_t *cfg, const char *name,
 
 		name += len;
 		if (*name && *name != '|')
-			return NULL;	/* garbage after a quoted title */
+			goto malformed;	/* garbage after a quoted title */
 		name += strspn(name, "|");
 		if (!*name && name[-1] == '|')
-			return NULL;	/* stray separator at the end */
+			goto malformed;	/* stray separator at the end */
 	}
 
 	if (!index) {
 		if (!*name)
-			return NULL;	/* the path ended with a section step */
+			goto malformed;	/* the path ended with a section step */
 
 		opt = cfg_getopt_leaf(sec, name);
 
@@ -358,6 +359,11 @@ static cfg_opt_t *cfg_getopt_secidx(cfg_t *cfg, const char *name,
 	}
 
 	return opt;
+
+malformed:
+	if (!is_set(CFGF_IGNORE_UNKNOWN, cfg->flags))
+		cfg_error(cfg, _("no such option '%s'"), path);
+	return NULL;
 }
 
 DLLIMPORT cfg_opt_t *cfg_getnopt(cfg_t *cfg, unsigned int index)
